@@ -5,7 +5,7 @@ Open Scope string_scope.
 
 Inductive case11 :=
 | KTable (t : list access)
-| KStress (race_reports : Z) (calls mismatches recorded counter_sum hit_miss_sum hit_miss_expected lost_live : Z)
+| KStress (race_reports : Z) (calls mismatches recorded counter_sum hit_miss_sum hit_miss_expected lost_live size_over : Z)
 | KLru (cap : Z) (h : list lev) (overlap : bool).
 
 Definition acc_name (a : access) : string := a_type a ++ "." ++ a_method a ++ "." ++ a_field a.
@@ -30,12 +30,13 @@ Definition check_case (c : case11) : report :=
                            | Some (a, b) => VPredFail ("lock_discipline/" ++ acc_name a ++ "~" ++ acc_name b)
                            | None => VPredFail "lock_discipline" end;
          r_trivial := false; r_tags := ["table"] |}
-  | KStress races calls mism mon csum hmsum hmexp lost =>
+  | KStress races calls mism mon csum hmsum hmexp lost over =>
       {| r_verdict := if negb (Z.eqb races 0) then VPredFail "data_race"
                       else if negb (Z.eqb mism 0) then VPredFail "answers_as_if_alone"
                       else if negb (Z.eqb csum mon) then VPredFail "no_lost_increment"
                       else if negb (Z.eqb hmsum hmexp) then VPredFail "hits_plus_misses"
                       else if negb (Z.eqb lost 0) then VPredFail "sweep_removes_only_expired"
+                      else if negb (Z.eqb over 0) then VPredFail "size_within_capacity"
                       else VOk;
          r_trivial := false; r_tags := ["stress"] |}
   | KLru cap h overlap =>
